@@ -19,7 +19,7 @@ THEOREMS = ["Privacy.hidden_inherits", "Output.hidden_inherits", "Output.hidden_
             "Output.private_marked_ChildTable", "Output.private_marked_packageInitTable", "Output.private_marked_baseTables",
             "Output.private_marked_childlist", "Output.private_marked_sidebar", "Output.private_marked_moduleIndex",
             "Output.private_marked_allDocuments", "Output.private_marked_nameIndex", "Output.classIndex_marker",
-            "Output.private_marked_classIndex_partial", "Output.private_marked_classIndex_counterexample",
+            "Output.private_marked_classIndex", "Output.classRowPrivate_of_ctxPrivate", "Output.private_marked_classIndex_counterexample_old",
             "Output.classNodePrivate_sound", "Output.ctxPrivate_of_private",
             "Output.no_trace_texts_partial", "Output.no_trace_texts_counterexample", "Output.no_trace_named_file",
             "Output.private_marked_undocumentedSummary", "Output.no_trace_alias_counterexample_old",
@@ -53,10 +53,6 @@ ASSUMPTIONS = [
     "zope.interface 'from' notes and extension-provided extra_info are not generated (unguarded in the code, see notes)",
 ]
 PARTIAL = {
-    "Output.private_marked_classIndex_partial": "classIndex.html: the entry of a PRIVATE class is marked when the class has no subclass; "
-                                                "summary.isClassNodePrivate marks the <li> (which also holds the subclasses' entries) only when "
-                                                "every subclass - visible or not - is private too: Output.private_marked_classIndex_counterexample, "
-                                                "open finding private-unmarked:class-index, proposed repair fixes/C12-class-index-private-row.diff",
     "Output.no_trace_texts_partial": "the unlinked root nodes of classIndex.html, under: no listed class has an invisible base or an "
                                      "unresolved base expression naming an invisible object (counterexample: "
                                      "no_trace_texts_counterexample; open finding hidden-trace:classindex-root-name). "
